@@ -153,7 +153,7 @@ def main(argv=None):
                 elif r["status"] == "assumed":
                     n_dis += 1
                 else:
-                    hit = match_known_site(known, r["name"])
+                    hit = match_known_site(known, r["name"], r.get("detail"))
                     if hit is not None:
                         ok, detail = confirm_known(pm, hit)
                         if ok:
@@ -282,9 +282,11 @@ def match_known(known, fq, clause):
     return None
 
 
-def match_known_site(known, name):
+def match_known_site(known, name, detail=None):
+    """a listed site finding is identified by the site AND, where the entry records it, by the provenance the scan derived for
+    the offending argument: the same call text fed from a different computation is a different violation"""
     for k in known:
-        if k.get("site") and name == k["site"]:
+        if k.get("site") and name == k["site"] and (not k.get("detail") or detail is None or k["detail"] == detail):
             return k
     return None
 
